@@ -164,7 +164,7 @@ def _matrix_eval(pe, mods, fn_path, m, with_transpose=False):
 def _matrix_job(job):
     fn_path, mats, with_t = job
     f = _G["facts"]
-    pe = peval.PEval(f, max_steps=5_000_000)
+    pe = peval.PEval(f, max_steps=400_000_000)
     mods = _mods(pe)
     if mods is None:
         return [("top", "module constructors/accessors do not fold", None)]
@@ -173,6 +173,68 @@ def _matrix_job(job):
         k, v = _matrix_eval(pe, mods, fn_path, m, with_t)
         out.append((k, v, m))
         pe.heap = peval.Heap()
+    return out
+
+
+def _real_symbol(v, bias):
+    rm = ref.region_map(v)
+    n = ref.side(v)
+    rnd = random.Random(1000 * v + int(bias * 100))
+    m = []
+    for r in range(n):
+        row = []
+        for c in range(n):
+            reg, val = rm[(r, c)]
+            if reg == ref.DATA:
+                # long uniform stretches now and then, as padding codewords produce
+                row.append((1, 1 if rnd.random() < bias else 0))
+            else:
+                row.append((0, (1 if val else 0) if val is not None else (1 if rnd.random() < 0.5 else 0)))
+        m.append(row)
+    return m
+
+
+def _long_lines():
+    """fixed lines of real symbol widths (up to 177 modules): what a narrowed counter, a window that is not cleared or a state carried
+    across a function module would get wrong only beyond the complete small domain"""
+    out = []
+    D0, D1, F0, F1 = (1, 0), (1, 1), (0, 0), (0, 1)
+    widths = (21, 25, 57, 64, 65, 100, 128, 129, 177)
+    for n in widths:
+        out.append((D0,) * n)
+        out.append((D1,) * n)
+        out.append(tuple((D1 if i % 2 else D0) for i in range(n)))
+    patt = (D1, D0, D1, D1, D1, D0, D1)
+    for gap in (0, 1, 3, 4, 5):
+        for n in (57, 129, 177):
+            unit = patt + (D0,) * gap
+            out.append((unit * (n // len(unit) + 1))[:n])
+    for k in range(4, 13):
+        for n in (100, 177):
+            out.append(tuple((D1 if (i // k) % 2 else D0) for i in range(n)))
+    # function modules inside: a finder-like head and tail, timing/alignment-like islands
+    for n in (57, 129, 177):
+        for period, width in ((20, 1), (28, 5), (11, 2)):
+            base = [D1 if (i * 7 // 3) % 3 == 0 else D0 for i in range(n)]
+            for i in range(n):
+                if i < 8 or i >= n - 8 or (i % period) < width:
+                    base[i] = F1 if i % 2 else F0
+            out.append(tuple(base))
+        # runs and windows cut by a single function module
+        for cut in (4, 5, 6, 7, 60):
+            base = [D1] * n
+            if cut < n:
+                base[cut] = F1
+            out.append(tuple(base))
+            b2 = list((patt + (D0, D0, D0, D0)) * (n // 11 + 1))[:n]
+            if cut < n:
+                b2[cut] = F0
+            out.append(tuple(b2))
+    rnd = random.Random(20261001)
+    for n in (57, 129, 177, 177):
+        for bias in (0.2, 0.5, 0.8):
+            for _ in range(4):
+                out.append(tuple((D1 if rnd.random() < bias else D0) if rnd.random() > 0.05 else (F1 if rnd.random() < 0.5 else F0) for _ in range(n)))
     return out
 
 
@@ -201,7 +263,9 @@ def c11_r9(ctx, f, rid="C11.R9"):
         return None
     _G["facts"] = f
     L = 11 if ctx.tier != "thorough" else 13
-    ctx.subset(rid, "lines up to length %d (data modules) / 6 (mixed labels), 2x2 and 3x3 symbols, 5x5 dark counts, 60 8x8 symbols" % L)
+    ctx.subset(rid, "every line up to length %d (data modules) / 6 (mixed labels) plus %d fixed long lines (widths 21..177: uniform, alternating, "
+                    "repeated 1011101 patterns, runs of 4..12, function-module islands, pseudo-random), 2x2 and 3x3 symbols, 5x5 dark "
+                    "counts, 60 8x8 symbols" % (L, len(_long_lines())))
     decided = True
     mp = multiprocessing.get_context("fork")
     ncpu = min(16, os.cpu_count() or 1)
@@ -227,6 +291,7 @@ def c11_r9(ctx, f, rid="C11.R9"):
             for cs in itertools.product(((1, 0), (1, 1), (0, 0), (0, 1)), repeat=n):
                 if any(not c[0] for c in cs):
                     lines.append(tuple(cs))
+        lines += _long_lines()
         with mp.Pool(ncpu) as pool:
             res = [x for part in pool.map(_line_job, _chunks(lines, ncpu * 4)) for x in part]
         order = None
@@ -317,6 +382,18 @@ def c11_r9(ctx, f, rid="C11.R9"):
             mats.append((a, transpose(a) if k % 2 == 0 else sample(k + 1)))
         for part in _chunks(mats, ncpu):
             jobs.append(("score::score", part, True))
+        # symbols of real sizes with the ISO function-pattern layout (function modules at their fixed values, encoding region
+        # pseudo-random with a bias): sums beyond any narrowed accumulator, every line width up to 177
+        # (quick: up to V25, whose biased symbols already total more than 65 535 penalty points; V40 in the thorough tier)
+        big_v = (1, 3, 7, 14, 25) if ctx.tier != "thorough" else (1, 2, 3, 6, 7, 10, 14, 20, 25, 32, 40)
+        for v in big_v:
+            for bias in ((0.5,) if v not in (1, 25, 40) else (0.5, 0.12, 1.0)):
+                a = _real_symbol(v, bias)
+                jobs.append(("score::score", [(a, transpose(a))], True))
+            if dm is not None and v in (25, 40):
+                for bias in (0.5, 0.03, 0.47, 0.97):
+                    jobs.append(("score::dark_module_score", [_real_symbol(v, bias)], False))
+        jobs.sort(key=lambda j: -max(len(m[0] if j[2] else m) for m in j[1]) ** 2 * len(j[1]))
     with mp.Pool(ncpu) as pool:
         res = pool.map(_matrix_job, jobs)
     models = {"score::matrix_score_squares": lambda m: (model_squares(m),), "score::dark_module_score": lambda m: (model_dark(m),),
